@@ -153,12 +153,13 @@ const (
 	FaultShortErr // short count + io.ErrShortWrite at k
 	FaultShortNil // short count + nil error at k
 	FaultZeroNil  // 0 bytes accepted + nil error at k
+	FaultFullErr  // every byte accepted, and an error returned with the full count, at k
 	NumFaultKinds
 )
 
 // FaultName names a fault kind.
 func FaultName(k int) string {
-	return [...]string{"none", "error-once", "error-sticky", "short+ErrShortWrite", "short+nil", "zero+nil"}[k]
+	return [...]string{"none", "error-once", "error-sticky", "short+ErrShortWrite", "short+nil", "zero+nil", "full-count+error"}[k]
 }
 
 // Writer records writes and injects one fault.
@@ -169,7 +170,7 @@ type Writer struct {
 	FaultAt int // index of the Write call to fault (-1 none)
 	Kind    int
 	Max     int // maximum number of Write calls before panicking with Runaway (0 = 1<<20)
-	Lost    bool
+	Lost    bool // the writer returned an error or a short count for a non-empty Write
 	Tripped bool
 	// OnWrite, if set, runs at the start of every Write call (e.g. to force a garbage collection)
 	OnWrite func()
@@ -195,7 +196,7 @@ func (w *Writer) Write(p []byte) (int, error) {
 	w.Sizes = append(w.Sizes, len(p))
 	fault := false
 	switch w.Kind {
-	case FaultOnce, FaultShortErr, FaultShortNil, FaultZeroNil:
+	case FaultOnce, FaultShortErr, FaultShortNil, FaultZeroNil, FaultFullErr:
 		fault = k == w.FaultAt
 	case FaultSticky:
 		fault = w.FaultAt >= 0 && k >= w.FaultAt
@@ -221,6 +222,12 @@ func (w *Writer) Write(p []byte) (int, error) {
 	case FaultZeroNil:
 		w.Lost = w.Lost || len(p) > 0
 		return 0, nil
+	case FaultFullErr:
+		// the writer took the bytes but reports a failure (a framing or tee writer whose own downstream failed):
+		// "the destination writer returns an error" - the call has to fail
+		w.Buf = append(w.Buf, p...)
+		w.Lost = w.Lost || len(p) > 0
+		return len(p), ErrInjected
 	}
 	return len(p), nil
 }
